@@ -524,6 +524,10 @@ func main() {
 		os.Exit(2)
 	}
 	root := os.Args[1]
+	if len(os.Args) > 2 && os.Args[2] == "gocode" {
+		fmt.Print(goCode(root))
+		return
+	}
 	var b strings.Builder
 	b.WriteString("/- GENERATED by extract/ from the current source tree on every run. Do not edit. -/\n\nnamespace Generated\n\n")
 
@@ -744,8 +748,113 @@ func main() {
 	b.WriteString("]\n\n")
 	b.WriteString("/-- the integer constants declared in ui/ui.go (name=value) -/\ndef uiConstants : List String := " + leanList(uiConstants(uif)) + "\n\n")
 	b.WriteString("/-- every comparison of `input` with something in ui.State.Update outside the final switch, in source order -/\ndef inputTests : List String := " + leanList(inputTests(uif)) + "\n\n")
+	/* the substitution loop of ui.openExternally */
+	hs, hg := hookSubstitutions(uif)
+	b.WriteString("/-- per case of `switch field` in ui.openExternally: the literal, then every assignment of the case as `target=value` -/\ndef hookSubstitutions : List (String × List String) := [\n")
+	for i, h := range hs {
+		if i > 0 {
+			b.WriteString(",\n")
+		}
+		b.WriteString("  (" + leanStr(h.keys[0]) + ", " + leanList(h.calls) + ")")
+	}
+	b.WriteString("]\n\n")
+	b.WriteString("/-- the loop around it: what is ranged over, the guard that skips an index, how `command` is made, what the stdin condition is -/\ndef hookLoop : List String := " + leanList(hg) + "\n\n")
 	b.WriteString("end Generated\n")
 	fmt.Print(b.String())
+}
+
+func hookSubstitutions(f *ast.File) ([]keyCase, []string) {
+	out := []keyCase{}
+	guards := []string{}
+	for _, d := range f.Decls {
+		fd, ok := d.(*ast.FuncDecl)
+		if !ok || fd.Name.Name != "openExternally" {
+			continue
+		}
+		ast.Inspect(fd.Body, func(n ast.Node) bool {
+			switch x := n.(type) {
+			case *ast.AssignStmt:
+				if len(x.Lhs) == 1 && len(x.Rhs) == 1 {
+					if id, ok := x.Lhs[0].(*ast.Ident); ok && (id.Name == "command" || id.Name == "foundPercentU") && x.Tok.String() == ":=" {
+						guards = append(guards, id.Name+":="+exprFull(x.Rhs[0]))
+					}
+				}
+			case *ast.ExprStmt:
+				if ce, ok := x.X.(*ast.CallExpr); ok {
+					if id, ok := ce.Fun.(*ast.Ident); ok && id.Name == "copy" {
+						guards = append(guards, "copy("+exprFull(ce.Args[0])+", "+exprFull(ce.Args[1])+")")
+					}
+				}
+			case *ast.RangeStmt:
+				guards = append(guards, "range "+exprString(x.Key)+", "+exprString(x.Value)+" := "+exprString(x.X))
+				for _, st := range x.Body.List {
+					if is, ok := st.(*ast.IfStmt); ok {
+						body := []string{}
+						for _, b := range is.Body.List {
+							if br, ok := b.(*ast.BranchStmt); ok {
+								body = append(body, br.Tok.String())
+							} else {
+								body = append(body, "<stmt>")
+							}
+						}
+						guards = append(guards, "if "+exprString(is.Cond)+" { "+strings.Join(body, "; ")+" }")
+					}
+				}
+			case *ast.IfStmt:
+				if ue, ok := x.Cond.(*ast.UnaryExpr); ok {
+					if id, ok := ue.X.(*ast.Ident); ok && id.Name == "foundPercentU" {
+						for _, b := range x.Body.List {
+							if as, ok := b.(*ast.AssignStmt); ok {
+								guards = append(guards, "if "+exprString(x.Cond)+" { "+exprString(as.Lhs[0])+"="+exprFull(as.Rhs[0])+" }")
+							}
+						}
+					}
+				}
+			case *ast.SwitchStmt:
+				if id, ok := x.Tag.(*ast.Ident); ok && id.Name == "field" {
+					for _, st := range x.Body.List {
+						cc := st.(*ast.CaseClause)
+						kc := keyCase{keys: []string{}, calls: []string{}}
+						for _, e := range cc.List {
+							if bl, ok := e.(*ast.BasicLit); ok {
+								kc.keys = append(kc.keys, unquote(bl))
+							} else {
+								kc.keys = append(kc.keys, exprString(e))
+							}
+						}
+						if len(kc.keys) != 1 {
+							kc.keys = []string{strings.Join(kc.keys, "|") + "(default or multi)"}
+						}
+						for _, b := range cc.Body {
+							if as, ok := b.(*ast.AssignStmt); ok && len(as.Lhs) == 1 {
+								kc.calls = append(kc.calls, exprString(as.Lhs[0])+as.Tok.String()+exprFull(as.Rhs[0]))
+							} else {
+								kc.calls = append(kc.calls, "<stmt>")
+							}
+						}
+						out = append(out, kc)
+					}
+				}
+			}
+			return true
+		})
+	}
+	return out, guards
+}
+
+/* exprString with call arguments spelled out */
+func exprFull(e ast.Expr) string {
+	if ce, ok := e.(*ast.CallExpr); ok {
+		args := []string{}
+		for _, a := range ce.Args {
+			args = append(args, exprFull(a))
+		}
+		return exprString(ce.Fun) + "(" + strings.Join(args, ", ") + ")"
+	}
+	if at, ok := e.(*ast.ArrayType); ok {
+		return "[]" + exprString(at.Elt)
+	}
+	return exprString(e)
 }
 
 type keyCase struct {
